@@ -102,5 +102,5 @@ CountLaw == \A i \in DOMAIN Docs :
 Emit == pc = "done" =>
   PrintT("REPLAY " \o ToJson([topic |-> "C08", form |-> form, fam |-> fam, oracle |-> TRUE, wt |-> TRUE,
                                src |-> QuantSrc, alts |-> <<ExplSrc>>, docs |-> Docs,
-                               plan |-> [tri |-> FALSE, sws |-> << <<>> >>]]))
+                               plan |-> [tri |-> FALSE, eng |-> TRUE, sws |-> << <<>> >>]]))
 =============================================================================
